@@ -53,6 +53,10 @@ def run(ctx):
     for n, cut, L in ((700, 50, 64), (700, 50, 0), (1500, 3, 1), (40, 39, 64)):            # explicit byte-aligned bit length, data longer than that (bytes after the cut are ignored)
         ev.append(md6_event(256, b'', L, 8, rb(n), 8 * (n - cut))); ctx.mark(('bytealigned-bitlen', n, cut, L))
     ev.append(md6_event(64, b'', 64, 170, b'abc', None)); ev.append(md6_event(512, b'k', 0, 200, rb(100), None))      # round counts beyond every default
+    def md6call(x):
+        h = MD6(128, b'', 64); h.rounds = 9; return h(x)
+    for m in core.zero_edge_inputs(md6call, lambda i: b'zm-%d-%d' % (ctx.seed, i), want=2, tries=1500):
+        ev.append(md6_event(128, b'', 64, 9, m, None)); ctx.mark(('zero-edge', m))
     ev.append(md6_event(256, b'', 64, 1, b'ab', 17))                            # bit length beyond the data
     for d, key, L, M in ((256, b'', 64, b'abc'), (224, b'', 64, b''), (512, b'key', 64, b'abc' * 50), (256, b'', 0, b'abc')):
         ev.append(md6_event(d, key, L, None, M, None))                           # default round counts
